@@ -127,4 +127,73 @@ Proof.
 Qed.
 
 Lemma Inv_nil n : Inv n []. Proof. split; [|split]; intros q; [|intros q'|]; intro H; destruct H. Qed.
+
+
+(* ---- all columns of one aggregate ---- *)
+(* the square-root function is exact on the squared norms that occur, and a kept column has a nonzero norm *)
+Hypothesis sqrt_sq : forall v : list F, fsqrt (vnormsq o v) * fsqrt (vnormsq o v) = vnormsq o v.
+Variable tol : F.
+Hypothesis kept_nonzero : forall a b : F, rltb (tol * fsqrt a) (fsqrt b) = true -> fsqrt b <> r0.
+
+(* positional form: columns i < j are orthogonal; every column has unit length or is orthogonal to everything *)
+Definition PInv (n : nat) (Q : list (list F)) : Prop :=
+  Inv n Q /\
+  (forall i j, (i < j < length Q)%nat -> dot (nth i Q []) (nth j Q []) = r0) /\
+  (forall i, (i < length Q)%nat -> dot (nth i Q []) (nth i Q []) = r1 \/ forall w, dot w (nth i Q []) = r0).
+
+Lemma mgs_step_PInv (n : nat) qs col : PInv n qs -> length col = n ->
+  PInv n (qs ++ [fst (mgs_col o fsqrt tol qs col)]).
+Proof.
+  intros (I & PO & PU) Hc.
+  pose proof (mgs_col_orthonormal n tol qs col I Hc) as St.
+  unfold mgs_col, ortho in *.
+  pose proof (ortho_fold_orth n qs [] col [] I Hc (fun q H => match H with end)) as S.
+  destruct (fold_left _ qs (col, [])) as [v ds]. cbn [app] in S. destruct S as (Hv & Ho).
+  change (ltb o (mul o tol (fsqrt (vnormsq o col))) (fsqrt (vnormsq o v)))
+    with (rltb (tol * fsqrt (vnormsq o col)) (fsqrt (vnormsq o v))) in *.
+  destruct (rltb (tol * fsqrt (vnormsq o col)) (fsqrt (vnormsq o v))) eqn:E; cbn [fst] in *.
+  - destruct St as [St _]. destruct (St eq_refl (sqrt_sq v) (kept_nonzero _ _ E)) as (I' & U).
+    split; [exact I'|]. split.
+    + intros i j Hij. rewrite app_length in Hij. cbn [length] in Hij.
+      destruct (Nat.eq_dec j (length qs)) as [->|Hj].
+      * rewrite (app_nth1 qs _ []) by lia. rewrite app_nth2 by lia. rewrite Nat.sub_diag. cbn [nth].
+        rewrite dot_sym, dot_vscale. rewrite (Ho (nth i qs [])) by (apply nth_In; lia). ring.
+      * rewrite !(app_nth1 qs _ []) by lia. apply PO. lia.
+    + intros i Hi. rewrite app_length in Hi. cbn [length] in Hi.
+      destruct (Nat.eq_dec i (length qs)) as [->|Hne].
+      * rewrite app_nth2 by lia. rewrite Nat.sub_diag. cbn [nth]. left. exact U.
+      * rewrite (app_nth1 qs _ []) by lia. apply PU. lia.
+  - destruct St as [_ St]. destruct (St eq_refl) as (I' & Z).
+    split; [exact I'|]. split.
+    + intros i j Hij. rewrite app_length in Hij. cbn [length] in Hij.
+      destruct (Nat.eq_dec j (length qs)) as [->|Hj].
+      * rewrite (app_nth1 qs _ []) by lia. rewrite app_nth2 by lia. rewrite Nat.sub_diag. cbn [nth]. apply Z.
+      * rewrite !(app_nth1 qs _ []) by lia. apply PO. lia.
+    + intros i Hi. rewrite app_length in Hi. cbn [length] in Hi.
+      destruct (Nat.eq_dec i (length qs)) as [->|Hne].
+      * rewrite app_nth2 by lia. rewrite Nat.sub_diag. cbn [nth]. right. exact Z.
+      * rewrite (app_nth1 qs _ []) by lia. apply PU. lia.
+Qed.
+
+Lemma PInv_nil n : PInv n [].
+Proof. split; [apply Inv_nil|]. split; [intros i j H; cbn in H; lia|intros i H; cbn in H; lia]. Qed.
+
+(* Q^T Q = diag(1 or 0) for the whole aggregate *)
+Theorem mgs_all_orthonormal (n : nat) (cols : list (list F)) : (forall c, In c cols -> length c = n) ->
+  let Q := fst (mgs o fsqrt tol cols) in
+  length Q = length cols /\ PInv n Q.
+Proof.
+  intro Hc. unfold mgs.
+  assert (G : forall l Q R, (forall c, In c l -> length c = n) -> PInv n Q ->
+     let Q' := fst (fold_left (fun (acc : list (list F) * list (list F)) col =>
+        let '(q, r) := mgs_col o fsqrt tol (fst acc) col in (fst acc ++ [q], snd acc ++ [r])) l (Q, R)) in
+     length Q' = (length Q + length l)%nat /\ PInv n Q').
+  { induction l as [|c l IH]; intros Q R Hl P; cbn [fold_left].
+    - cbn [fst length]. split; [lia|exact P].
+    - cbn [fst snd]. pose proof (mgs_step_PInv n Q c P (Hl c (or_introl eq_refl))) as P1.
+      destruct (mgs_col o fsqrt tol Q c) as [q r]. cbn [fst] in P1.
+      destruct (IH (Q ++ [q]) (R ++ [r]) (fun x Hx => Hl x (or_intror Hx)) P1) as (L & P2).
+      split; [rewrite L, app_length; cbn [length]; lia|exact P2]. }
+  destruct (G cols [] [] Hc (PInv_nil n)) as (L & P). split; [exact L|exact P].
+Qed.
 End P.
